@@ -247,6 +247,60 @@ Proof.
   - apply Forall_forall. intros [p|p] Hp; auto.
 Qed.
 
+(* ---- the same for the finite-difference systems: the Jacobian loop records every point at
+        which it calls func, so agreement on the recorded points is enough ---- *)
+Lemma for_from_congr {S} (Good : S -> Prop) (body body' : nat -> S -> res S) :
+  (forall i s s1, body i s = Ok s1 -> Good s1 -> Good s /\ body' i s = Ok s1) ->
+  forall n lo s s', for_from n lo body s = Ok s' -> Good s' -> Good s /\ for_from n lo body' s = Ok s'.
+Proof.
+  intros Hb. induction n as [|n IH]; intros lo s s' H G; cbn in *.
+  - injection H as <-. auto.
+  - apply bind_ok in H as (s1 & E1 & H). destruct (IH _ _ _ H G) as [G1 H1].
+    destruct (Hb _ _ _ E1 G1) as [G0 E1']. split; auto. rewrite E1'. exact H1.
+Qed.
+
+Lemma jacobian_congr (f g : list A -> res (list A)) x d r :
+  jacobian O f x d = Ok r -> Forall (fun p => f p = g p) (snd r) -> jacobian O g x d = Ok r.
+Proof.
+  unfold jacobian. intros H Ha. inv_bind H. destruct x0 as [[st J] ev]. injection H as <-.
+  cbn in Ha. unfold jacobian_tr in *. inv_bind E. rename x0 into f0.
+  unfold for_ in *.
+  assert (Hbody : forall i (s s1 : list A * matrix A * list (list A)),
+            jac_body O f f0 d i s = Ok s1 -> Forall (fun p => f p = g p) (snd s1) ->
+            Forall (fun p => f p = g p) (snd s) /\ jac_body O g f0 d i s = Ok s1).
+  { intros i [[s j] e] s1 Hb G. unfold jac_body in Hb. inv_bind Hb. injection Hb as <-.
+    cbn in G. apply Forall_app in G as [G1 G2]. inversion G2 as [|? ? Gx _]; subst.
+    split; [exact G1|]. unfold jac_body. rewrite E1. cbn [bind]. rewrite E2. cbn [bind].
+    rewrite <- Gx, E3. cbn [bind]. rewrite E4. cbn [bind]. rewrite E5. cbn [bind].
+    rewrite E6. cbn [bind]. rewrite E7. cbn [bind]. rewrite E8. reflexivity. }
+  destruct (for_from_congr (fun s : list A * matrix A * list (list A) =>
+              Forall (fun p => f p = g p) (snd s)) _ _ Hbody _ _ _ _ E Ha) as [G0 E'].
+  cbn in G0. inversion G0 as [|? ? Gx _]; subst. rewrite <- Gx, E0. cbn [bind].
+  rewrite E'. reflexivity.
+Qed.
+
+Lemma sys_step_congr tl dl (f g : list A -> res (list A)) x r :
+  sys_step O tl dl f x = Ok r -> Forall (fun p => f p = g p) (snd r) -> sys_step O tl dl g x = Ok r.
+Proof.
+  intros H Ha. destruct r as [[x' b] e]. unfold sys_step in H. inv_bind H. injection H as <- <- <-.
+  cbn in Ha. inversion Ha as [|? ? Gx Ga]; subst.
+  unfold sys_step. rewrite <- Gx, E. cbn [bind]. rewrite E0. cbn [bind].
+  rewrite (jacobian_congr f g x (emb O dl) x2 E1 Ga). cbn [bind]. rewrite E2. cbn [bind].
+  rewrite E3. reflexivity.
+Qed.
+
+Lemma newton_sys_local_lemma (c : ncfg R (list A)) (f g : list A -> res (list A)) r evs :
+  newton_sys O c f = Ok (r, evs) -> (forall p, In p evs -> f p = g p) ->
+  newton_sys O c g = Ok (r, evs).
+Proof.
+  unfold newton_sys. intros H Hin.
+  eapply (nloop_congr _ _ (fun p => f p = g p)) with (e := evs).
+  - intros x r0. apply sys_step_congr.
+  - exact H.
+  - reflexivity.
+  - apply Forall_forall. exact Hin.
+Qed.
+
 End Steps.
 
 (* ====================================================================================== *)
